@@ -462,3 +462,58 @@ theorem invL_step (s : St) (h : InvL s) : InvL s.stepHead.1 := by
 
 end St
 end Upnp.C18
+
+namespace Upnp.C18
+open Upnp
+namespace St
+
+theorem invL_apply (s : St) (op : Op) (h : InvL s) : InvL (s.apply op).1 := by
+  cases op with
+  | lookup loc => exact invL_lookup s loc h
+  | complete d v => exact invL_complete s d v h
+  | cancel t => exact invL_cancel s t h
+  | uncache loc => exact invL_uncache s loc h
+  | step => exact invL_step s h
+
+/-- under the liveness invariant every scheduler snapshot passes the monitor's deadlock check:
+    nothing runnable and no download outstanding ⇒ no unfinished lookup -/
+theorem quiet_of_invL (s : St) (h : InvL s) :
+    quietOk s.ready.length s.outstandingCount s.pendingCount = true := by
+  unfold quietOk
+  by_cases hq : (s.ready.length == 0 && s.outstandingCount == 0) = true
+  · simp only [hq, Bool.not_true, Bool.false_or, beq_iff_eq]
+    simp only [Bool.and_eq_true, beq_iff_eq, List.length_eq_zero_iff] at hq
+    obtain ⟨hr, ho⟩ := hq
+    have hno : ∀ d, s.outstanding d = false := by
+      intro d
+      cases hd : s.outstanding d with
+      | false => rfl
+      | true =>
+        have hlt := outstanding_lt s d hd
+        unfold outstandingCount at ho
+        have : d ∈ (List.range s.mon.dls.length).filter s.outstanding := by
+          simp [List.mem_filter, hlt, hd]
+        rw [List.length_eq_zero_iff.mp ho] at this
+        simp at this
+    have hnd : ∀ t d e, s.pcOf t ≠ some (.waitDl d e) := by
+      intro t d e hp
+      rcases h.lDl t d e hp with h1 | h1
+      · rw [hr] at h1; simp at h1
+      · rw [hno] at h1; simp at h1
+    unfold pendingCount
+    rw [List.length_eq_zero_iff, List.filter_eq_nil_iff]
+    intro k hk
+    obtain ⟨t, ht, hkt⟩ := List.getElem_of_mem hk
+    have hp : s.pcOf t = some k.pc := by simp [pcOf, List.getElem?_eq_getElem ht, hkt]
+    cases hpc : k.pc with
+    | done => simp
+    | init => have := h.lInit t (by rw [hp, hpc]); rw [hr] at this; simp at this
+    | waitDl d e => exact absurd (by rw [hp, hpc]) (hnd t d e)
+    | waitEvt e =>
+      rcases h.lEvt t e (by rw [hp, hpc]) with h1 | ⟨_, t', d', h2⟩
+      · rw [hr] at h1; simp at h1
+      · exact absurd h2 (hnd t' d' e)
+  · simp [hq]
+
+end St
+end Upnp.C18
